@@ -10,13 +10,12 @@ Proof (Props/C15.lean, helper lemmas in Lemmas/LoadSpec.lean), for ALL images / 
    `freeData_getData`, `interleaving_eq`, `seg_interleaving_eq` (list induction over any sequence of
    request / release / arbitrary disturbance of the stream's position and error state);
  * whole load, every stream (length < 2^63) under EVERY address translation table — no hypothesis on the
-   table or on what the container holds (since the F16 repair): `lazy_eq_eager` / `lazy_eq_eager_obs`
-   : if the eager load() succeeds, the lazy load() succeeds with the same header and, for every section and
-   segment and any interleaving, the same observations (simulation of the two runs through the section loop
-   `loadSectionsLoop_sim`, the name step `loadNames_sim`, the segment loop `loadSegmentsLoop_sim`).
-   The hypothesis `re.ok = true` excludes exactly the open finding F15, which is machine-checked:
-   `lazy_load_unreadable_segment_witness` (84-byte image: eager load() = false, lazy load() = true) and
-   `lazy_eq_eager_needs_ok` (the statement without the hypothesis is false).
+   table, on what the container holds (since the F16 repair) or on the result (since the F15 repair):
+   `lazy_eq_eager` / `lazy_eq_eager_obs` : the lazy load() returns what the eager load() returns (both
+   succeed or both refuse: `lazy_eq_eager_result`, `loadOk_lazy_eq_eager`) with the same header and, for every
+   section and segment and any interleaving, the same observations (simulation of the two runs through the
+   section loop `loadSectionsLoop_sim`, the name step `loadNames_sim`, the segment loop `loadSegmentsLoop_sim`,
+   which now shows that both runs stop at the same program header).
    For well-formed images additionally `lazy_eq_eager_wf` (both modes = the specification, via C02);
  * address translation: `rangeRep_of_entry` (a range inside one table entry whose container image equals
    the plain bytes is represented), `translated_read_eq`, `translated_hdrRead_eq` (read level), and the
@@ -25,6 +24,18 @@ Proof (Props/C15.lean, helper lemmas in Lemmas/LoadSpec.lean), for ALL images / 
    with the table succeeds and shows the same header, fields, names, members and data as load on the
    plain image (eager or lazy, either stream kind, independently on both sides).  Non-vacuity: a concrete
    container/table for the C02 example image satisfies `Represents` (`decide`).
+ Former finding F15 (fixes/22-lazy-segment-range-check.patch): `segment_impl::load` called `load_data()` — and
+ with it the tests of p_offset / p_filesz against the stream size — only when not lazy, and returned true
+ otherwise: for a program header whose file range lies outside the stream the eager load() returned false and
+ the lazy load() true.  The range tests now live in `segment_impl::is_file_range_valid()`, asked by `load_data()`
+ and by the lazy path of `load` (model: `segRangeOk`; generated sites `seg*_range_*`, `seg*_load_data_range_bad`,
+ `seg*_load_lazy_ret`).  Proved: `ElfioVerif.segLoadData_ok_eq_rangeOk` (on a freshly created segment
+ `load_data()` returns exactly what the range test returns: once it passes, the read is inside the stream and
+ complete), `ElfioVerif.segLoad_ok_lazy_eq_eager`, `segLoad_ok_sim`; `lazy_eq_eager` lost its hypothesis
+ `re.ok = true`, the refuted statement `lazy_eq_eager_needs_ok` became the theorem `lazy_eq_eager_result`, and on
+ the former witness both modes refuse: `lazy_load_unreadable_segment_agree`
+ (corpus/c15/f15-lazy-loads-unreadable-segment.case stays as a regression case; `gen_unreadable_segment`
+ generates the class on every run).
  Former finding F16 (fixes/16-stream-size-with-translator.patch): with a translation table `stream_size` was
  SIZE_MAX, so an eager load of a truncated container made a short data read, kept failbit and lost every later
  section header, while the lazy load read them.  The loader now records the real stream size with a table too
@@ -39,7 +50,10 @@ cut at table/section boundaries, random order, incl. ranges that map nothing); t
 identical observations.  A second stream of cases (`gen_translated_pairs`) loads ONE container eagerly
 (object 0) and lazily (object 1) under the SAME table, where the container is intact, truncated, cut in
 the middle of section/segment data, has table entries that map beyond its end or claim more than was
-placed, or is byte-corrupted; the same lazy = eager oracle applies.
+placed, or is byte-corrupted; the same lazy = eager oracle applies.  A third stream (`gen_unreadable_segment`)
+patches one program header's p_offset / p_filesz so that the file range ends exactly at, one byte past, or far
+beyond the end of the file (and PT_NULL / empty segments with such ranges, which both modes accept).
+A different load() result in the two modes is a violation (`lazy-load-result`), whatever its direction.
 dump text lazy-vs-eager is compared implementation-to-implementation only.
 """
 from families.loadcommon import *
@@ -52,24 +66,30 @@ THEOREMS = ["ElfioVerif.C15.isolatedRead_state_independent", "ElfioVerif.C15.iso
             "ElfioVerif.C15.secGetData_lazy_eq_eager", "ElfioVerif.C15.freeData_getData",
             "ElfioVerif.C15.interleaving_eq",
             "ElfioVerif.C15.segGetData_lazy_eq_eager", "ElfioVerif.C15.seg_interleaving_eq",
-            "ElfioVerif.C15.lazy_load_unreadable_segment_witness",
+            "ElfioVerif.C15.lazy_load_unreadable_segment_agree",
+            "ElfioVerif.segLoadData_ok_eq_rangeOk", "ElfioVerif.segLoad_ok_lazy_eq_eager",
+            "ElfioVerif.C15.segLoad_ok_sim",
             "ElfioVerif.C15.rangeRep_of_entry", "ElfioVerif.C15.translated_read_eq",
             "ElfioVerif.C15.translated_hdrRead_eq", "ElfioVerif.C15.lazy_eq_eager_wf",
             "ElfioVerif.C15.loadSectionsLoop_sim", "ElfioVerif.C15.loadNames_sim",
             "ElfioVerif.C15.loadSegmentsLoop_sim", "ElfioVerif.C15.lazy_eq_eager",
-            "ElfioVerif.C15.lazy_eq_eager_obs", "ElfioVerif.C15.lazy_eq_eager_needs_ok",
+            "ElfioVerif.C15.lazy_eq_eager_obs", "ElfioVerif.C15.lazy_eq_eager_result",
+            "ElfioVerif.C15.loadOk_lazy_eq_eager",
             "ElfioVerif.loadBody_rep", "ElfioVerif.load_gate_rep",
             "ElfioVerif.C15.represents_plain", "ElfioVerif.C15.load_eq_spec_tr",
             "ElfioVerif.C15.translated_eq_plain", "ElfioVerif.C15.lazy_eager_translated_truncated_agree",
             "ElfioVerif.streamSizeOf_tr_indep_ls"]
-SITES = ["conv", "load_s", "sec32_load", "sec64_load", "seg32_load", "seg64_load"]
+SITES = ["conv", "load_s", "sec32_load", "sec64_load", "seg32_load", "seg64_load", "seg32_range", "seg64_range"]
 RULE = ("images: encoder-built well-formed (4 configurations), small bundled examples, and mutated images "
         "(tools/elfspec.mutate incl. truncation) — eager object vs lazy object under a random interleaving of "
         "`sec i`/`secfree i`/`seg j`/`segfree j` of length <= 24, then both fully observed; for well-formed images "
         "additionally a container stream with a translation table of 1-6 ranges; plus eager vs lazy under the same "
-        "table on intact / truncated / cut-in-data / mapping-beyond-the-end / corrupted containers. non-trivial = the image loads "
+        "table on intact / truncated / cut-in-data / mapping-beyond-the-end / corrupted containers; plus images with one "
+        "program header whose file range ends at / one byte past / far beyond the end of the file. non-trivial = the image loads "
         "and the interleaving contains at least one release followed by a request; distinct by md5")
 ASSUMPTIONS = ["the stream stays open and unmodified while the lazily loaded object lives",
+               "observations are compared after a successful load only (both modes now return the same result; "
+               "the state of an object whose load() returned false is unspecified)",
                "translated = plain is claimed for well-formed images whose read ranges the table represents",
                "the stream can seek to its end (string- and regular-file-backed streams); for streams that cannot "
                "(/proc/<pid>/mem) the loader keeps stream_size = SIZE_MAX and the read bounds stay vacuous"]
@@ -254,10 +274,60 @@ def gen_failed_tail(rng, tier):
                                                          "damage": how}}
 
 
+def gen_unreadable_segment(rng, tier):
+    """one program header whose file range does not fit into the file (or just fits, or belongs to a PT_NULL /
+    empty segment, which has nothing to read): load() must answer the same in both modes (former finding F15:
+    the lazy load accepted what the eager load refused)"""
+    n = 40 if tier == "quick" else 400
+    for i in range(n):
+        cls, enc = CFGS[i % 4]
+        img = bytearray(elfspec.encode(elfspec.random_model(rng, cls, enc, nseg=rng.randint(1, 3))))
+        eh = elfspec.unpack(elfspec.EHDR[cls], img, 16, enc)
+        if eh["e_phnum"] == 0 or eh["e_phentsize"] < elfspec.PHSIZE[cls]:
+            continue
+        j = rng.randrange(eh["e_phnum"]); rec = eh["e_phoff"] + j * eh["e_phentsize"]
+        pos = {}; o = rec
+        for nme, w in elfspec.PHDR[cls]:
+            pos[nme] = (o, w); o += w
+        if o > len(img):
+            continue
+        full = (1 << (8 * pos["p_offset"][1])) - 1
+        L = len(img)
+        how = rng.choice(["fits-exactly", "one-past", "offset-at-end", "offset-past-end", "size-huge", "offset-huge",
+                          "wraps", "null-wild", "empty-wild"])
+        ptype = rng.choice([1, 1, 1, 2, 4, 6, 0x6474e551])
+        off, fsz = {
+            "fits-exactly":    (lambda a: (a, L - a))(rng.randrange(0, L)),
+            "one-past":        (lambda a: (a, L - a + 1))(rng.randrange(0, L)),
+            "offset-at-end":   (L, rng.choice([1, 4, 4096])),
+            "offset-past-end": (L + rng.choice([1, 7, 1000, 1 << 20]), rng.choice([1, 4, 64])),
+            "size-huge":       (rng.randrange(0, L), rng.choice([full, full - 1, (full + 1) >> 1, L + 1, 1 << 24])),
+            "offset-huge":     (rng.choice([full, full - 3, (full + 1) >> 1]), rng.choice([1, 4, full])),
+            "wraps":           (lambda a: (a, full + 1 - a + rng.choice([0, 1, 5])))(rng.randrange(1, L)),
+            "null-wild":       (L + 1000, 4096),
+            "empty-wild":      (L + 1000, 0),
+        }[how]
+        if how == "null-wild":
+            ptype = 0
+        for nme, val in (("p_type", ptype), ("p_offset", off), ("p_filesz", fsz)):
+            a, w = pos[nme]
+            img[a:a + w] = elfspec.put(val, w, enc)
+        img = bytes(img)
+        ns, ng = counts(img)
+        obs = observe_lines(img, max_sec=24, max_seg=8)
+        inter = interleaving(rng, ns, ng)
+        kind = rng.choice(["str", "str", "file"])
+        lines = ["obj 0", f"load {hx(img)} lazy=0 kind={kind}"] + obs + \
+                ["obj 1", f"load {hx(img)} lazy=1 kind={kind}"] + inter + obs
+        yield {"id": f"us{i}", "lines": lines, "meta": {"nobs": len(obs), "ninter": len(inter), "wf": False, "trans": False,
+                                                         "useg": how}}
+
+
 def gen_cases(rng, tier):
     yield from gen_plain(rng, tier)
     yield from gen_translated_pairs(rng, tier)
     yield from gen_failed_tail(rng, tier)
+    yield from gen_unreadable_segment(rng, tier)
 
 
 def gen_plain(rng, tier):
@@ -304,9 +374,6 @@ def oracle(case, out):
     r0 = strip_allocs(out[1 + p]); e = out[2 + p:2 + p + n]
     r1 = strip_allocs(out[3 + 2 * p + n]); l = out[4 + 2 * p + n + m:4 + 2 * p + n + m + n]
     v = []
-    if r0 == "load=false" and r1 == "load=true":
-        return [{"signature": "lazy-load-result:eager-false-lazy-true",
-                 "what": "lazy load() succeeds where eager load() fails (a segment's file range cannot be read)"}]
     if r0 != r1:
         v.append({"signature": "lazy-load-result", "what": f"eager {r0} vs lazy {r1}"})
     elif r0.startswith("load=true"):   # after a failed load the object's state is unspecified
@@ -345,5 +412,6 @@ def classify(case, out):
     ks = ["wf" if case["meta"]["wf"] else "mutated"]
     if case["meta"]["trans"]: ks.append("translated")
     if case["meta"].get("tpair"): ks += ["translated-pair", "container:" + case["meta"].get("damage", "?")]
+    if case["meta"].get("useg"): ks.append("segment-range:" + case["meta"]["useg"])
     ks.append("loaded" if loaded(case, out) else "rejected")
     return ks
